@@ -13,6 +13,17 @@
 (*   bootcheck: page_exists(Module:_sandbox_phase1)                         *)
 (*   insert (add_page: takes the write lock) -> commit                      *)
 (*   read ...                                                               *)
+(*   close: close_db_conn (commit, close the connection) - at any moment    *)
+(*          after the page work, so contexts have LIFETIMES: a worker may   *)
+(*          close while others work and others may open after it closed     *)
+(*                                                                          *)
+(* A creating context ("driver", pseudo-process D) may be present: it has   *)
+(* created the database file, stored and committed the pages and still has  *)
+(* its context open when the workers start; it closes at any moment.  In    *)
+(* WAL mode its commits live in the side file <db>-wal until a checkpoint;  *)
+(* SQLite checkpoints (and removes the side files) when the LAST connection *)
+(* closes; a close while other connections are open leaves the side files   *)
+(* alone.  `ck` of an inode is what the main file alone holds.              *)
 (*                                                                          *)
 (* Files are inodes; the paths <db> and <stem>_backup point to inodes, a    *)
 (* connection keeps its inode whatever happens to the path afterwards.      *)
@@ -30,13 +41,18 @@
 (*                                  connection that holds the open cursor   *)
 (*                                  (ideal: written under a fresh snapshot) *)
 (*      "BootcheckNeverHits"     - page_exists(bootstrap) is always false   *)
+(*      "CloseRemovesSideFiles"  - (hypothetical, Demo only) a context that *)
+(*                                  closes while others are open removes    *)
+(*                                  <db>-wal/-shm: contexts opened later    *)
+(*                                  see only what the main file holds       *)
 EXTENDS Naturals, Sequences, FiniteSets, TLC
 
 CONSTANTS
   Procs,       \* worker ids
   Dev,         \* deviations switched on
-  Scenarios    \* set of [bak, boot, cursor]: backup file present / bootstrap page stored /
-               \* workers keep a get_all_pages() cursor open while they work
+  Scenarios    \* set of [bak, boot, cursor, drv]: backup file present / bootstrap page stored /
+               \* workers keep a get_all_pages() cursor open while they work /
+               \* the creating context is still open when the workers start
 
 RestoreRace == "RestoreRaceOnStartup" \in Dev
 BootSnap == "BootstrapUnderSnapshot" \in Dev
@@ -44,12 +60,19 @@ BootSnap == "BootstrapUnderSnapshot" \in Dev
 \* looked up as "Module: sandbox phase1", so the check never finds it and every context
 \* writes the page again on its first Lua use
 BootcheckNeverHits == "BootcheckNeverHits" \in Dev
+CloseTidies == "CloseRemovesSideFiles" \in Dev
 
-NIno == 2 + Cardinality(Procs)
+D == 0                       \* the creating context (driver); only ever closes
+PAll == Procs \cup {D}
+
+NIno == 3 + Cardinality(Procs)
 Inodes == 1..NIno
 
-Ino(c, ver, tabs, used) == [c |-> c, ver |-> ver, tabs |-> tabs, used |-> used]
-Unused == Ino({}, 0, FALSE, FALSE)
+\* c, tabs: what connections that share the side files see; ck: what the main file alone holds
+Ino(c, ver, tabs, used, ck) == [c |-> c, ver |-> ver, tabs |-> tabs, used |-> used, ck |-> ck]
+Ck(c, tabs) == [c |-> c, tabs |-> tabs]
+Unused == Ino({}, 0, FALSE, FALSE, Ck({}, FALSE))
+NoLife == [nlcD |-> FALSE, nlcW |-> FALSE, lateD |-> FALSE, lateW |-> FALSE]
 NoSnap == [on |-> FALSE, c |-> {}, ver |-> 0]
 
 VARIABLES
@@ -60,30 +83,39 @@ VARIABLES
   pc, conn, snap, saw, res,
   chk,           \* ghost: what the backup path pointed to when the process checked it
   raced,         \* ghost: a process restored on the basis of a check that was no longer true
-  snapfail       \* ghost: a bootstrap write failed because of a stale read snapshot
+  snapfail,      \* ghost: a bootstrap write failed because of a stale read snapshot
+  opn,           \* process -> its connection is open (connect .. close)
+  life           \* ghost: lifetime pattern of the run: nlcD/nlcW = the driver / a worker closed while
+                 \* another connection was open; lateD/lateW = a context connected after such a close
 
-vars == <<scn, pmain, pbak, ino, wlock, pc, conn, snap, saw, res, chk, raced, snapfail>>
+vars == <<scn, pmain, pbak, ino, wlock, pc, conn, snap, saw, res, chk, raced, snapfail, opn, life>>
 
 BakPresent == scn.bak
 BootPresent == scn.boot
 Cursor == scn.cursor
+Driver == scn.drv
 Exp == IF BakPresent THEN "B" ELSE "M"     \* the page version a single process would see
 BootSet == IF BootPresent THEN {"boot"} ELSE {}
 
 Init ==
   /\ scn \in Scenarios
   /\ pmain = 1 /\ pbak = IF BakPresent THEN 2 ELSE 0
-  /\ ino = [i \in Inodes |-> IF i = 1 THEN Ino({"M"} \cup BootSet, 0, TRUE, TRUE)
-                              ELSE IF i = 2 /\ BakPresent THEN Ino({"B"} \cup BootSet, 0, TRUE, TRUE)
+  \* the creating context made the tables before it switched to WAL (code order of create_db):
+  \* the schema is in the main file, every stored page only in the side file until a checkpoint
+  /\ ino = [i \in Inodes |-> IF i = 1 THEN Ino({"M"} \cup BootSet, 0, TRUE, TRUE,
+                                              IF Driver THEN Ck({}, TRUE) ELSE Ck({"M"} \cup BootSet, TRUE))
+                              ELSE IF i = 2 /\ BakPresent THEN Ino({"B"} \cup BootSet, 0, TRUE, TRUE, Ck({"B"} \cup BootSet, TRUE))
                               ELSE Unused]
   /\ wlock = [i \in Inodes |-> 0]
-  /\ pc = [p \in Procs |-> "exists"]
-  /\ conn = [p \in Procs |-> 0]
-  /\ snap = [p \in Procs |-> NoSnap]
-  /\ saw = [p \in Procs |-> FALSE]
-  /\ res = [p \in Procs |-> "-"]
-  /\ chk = [p \in Procs |-> 0]
+  /\ pc = [p \in PAll |-> IF p # D THEN "exists" ELSE IF Driver THEN "done" ELSE "closed"]
+  /\ conn = [p \in PAll |-> IF p = D /\ Driver THEN 1 ELSE 0]
+  /\ opn = [p \in PAll |-> p = D /\ Driver]
+  /\ snap = [p \in PAll |-> NoSnap]
+  /\ saw = [p \in PAll |-> FALSE]
+  /\ res = [p \in PAll |-> "-"]
+  /\ chk = [p \in PAll |-> 0]
   /\ raced = FALSE /\ snapfail = FALSE
+  /\ life = NoLife
 
 FreeIno == CHOOSE i \in Inodes : ~ino[i].used
 View(p) == IF snap[p].on THEN snap[p].c ELSE ino[conn[p]].c
@@ -99,27 +131,29 @@ Exists(p) ==
      ELSE \* ideal: check, unlink and rename are one indivisible step
           Go(p, "connect") /\ pmain' = pbak /\ pbak' = 0
   /\ chk' = [chk EXCEPT ![p] = pbak]
-  /\ UNCHANGED <<ino, wlock, conn, snap, saw, res, raced, snapfail>>
+  /\ UNCHANGED <<ino, wlock, conn, snap, saw, res, raced, snapfail, opn, life>>
 
 Unlink(p) ==
   /\ pc[p] = "unlink" /\ pmain' = 0 /\ Go(p, "rename")
   /\ raced' = (raced \/ pbak # chk[p])
-  /\ UNCHANGED <<pbak, ino, wlock, conn, snap, saw, res, chk, snapfail>>
+  /\ UNCHANGED <<pbak, ino, wlock, conn, snap, saw, res, chk, snapfail, opn, life>>
 
 Rename(p) ==
   /\ pc[p] = "rename"
   /\ IF pbak = 0 THEN Fail(p, "fnf") /\ UNCHANGED <<pmain, pbak>>
      ELSE pmain' = pbak /\ pbak' = 0 /\ Go(p, "connect") /\ res' = res
   /\ raced' = (raced \/ pbak # chk[p])
-  /\ UNCHANGED <<ino, wlock, conn, snap, saw, chk, snapfail>>
+  /\ UNCHANGED <<ino, wlock, conn, snap, saw, chk, snapfail, opn, life>>
 
 Connect(p) ==
   /\ pc[p] = "connect"
   /\ IF pmain = 0
-     THEN /\ pmain' = FreeIno /\ ino' = [ino EXCEPT ![FreeIno] = Ino({}, 0, FALSE, TRUE)]
+     THEN /\ pmain' = FreeIno /\ ino' = [ino EXCEPT ![FreeIno] = Ino({}, 0, FALSE, TRUE, Ck({}, FALSE))]
           /\ conn' = [conn EXCEPT ![p] = FreeIno]
      ELSE conn' = [conn EXCEPT ![p] = pmain] /\ UNCHANGED <<pmain, ino>>
   /\ Go(p, "script")
+  /\ opn' = [opn EXCEPT ![p] = TRUE]
+  /\ life' = [life EXCEPT !.lateD = @ \/ life.nlcD, !.lateW = @ \/ life.nlcW]
   /\ UNCHANGED <<pbak, wlock, snap, saw, res, chk, raced, snapfail>>
 
 \* First access of the connection (CREATE TABLE IF NOT EXISTS ...; PRAGMA ...): SQLite
@@ -127,11 +161,11 @@ Connect(p) ==
 \* it holds is no longer the one at the path.  A write only on a database without schema.
 Script(p) ==
   /\ pc[p] = "script"
-  /\ IF pmain # conn[p] THEN Fail(p, "ioerr") /\ ino' = ino
+  /\ IF pmain # conn[p] THEN Fail(p, "ioerr") /\ ino' = ino /\ opn' = [opn EXCEPT ![p] = FALSE]  \* no context object: the connection is dropped
      ELSE /\ IF ino[conn[p]].tabs THEN ino' = ino
              ELSE wlock[conn[p]] = 0 /\ ino' = [ino EXCEPT ![conn[p]].tabs = TRUE, ![conn[p]].ver = @ + 1]
-          /\ Go(p, IF Cursor THEN "cursor" ELSE "read1") /\ res' = res
-  /\ UNCHANGED <<pmain, pbak, wlock, conn, snap, saw, chk, raced, snapfail>>
+          /\ Go(p, IF Cursor THEN "cursor" ELSE "read1") /\ res' = res /\ opn' = opn
+  /\ UNCHANGED <<pmain, pbak, wlock, conn, snap, saw, chk, raced, snapfail, life>>
 
 (* ---- page work ---- *)
 \* the iterator over the stored pages stays open (if there is any page to iterate over)
@@ -141,13 +175,13 @@ OpenCursor(p) ==
                                   THEN [on |-> TRUE, c |-> ino[conn[p]].c, ver |-> ino[conn[p]].ver]
                                   ELSE NoSnap]
   /\ Go(p, "read1")
-  /\ UNCHANGED <<pmain, pbak, ino, wlock, conn, saw, res, chk, raced, snapfail>>
+  /\ UNCHANGED <<pmain, pbak, ino, wlock, conn, saw, res, chk, raced, snapfail, opn, life>>
 
 Read(p, here, next) ==
   /\ pc[p] = here
   /\ IF Exp \in View(p) THEN Go(p, next) /\ res' = res
      ELSE Fail(p, IF View(p) \ {"boot"} = {} THEN "missing" ELSE "stale")
-  /\ UNCHANGED <<pmain, pbak, ino, wlock, conn, snap, saw, chk, raced, snapfail>>
+  /\ UNCHANGED <<pmain, pbak, ino, wlock, conn, snap, saw, chk, raced, snapfail, opn, life>>
 Read1(p) == Read(p, "read1", "bootcheck")
 
 BootFound(p) == "boot" \in View(p) /\ ~BootcheckNeverHits
@@ -155,7 +189,7 @@ Bootcheck(p) ==
   /\ pc[p] = "bootcheck"
   /\ saw' = [saw EXCEPT ![p] = BootFound(p)]
   /\ Go(p, IF BootFound(p) THEN "read2" ELSE "insert")
-  /\ UNCHANGED <<pmain, pbak, ino, wlock, conn, snap, res, chk, raced, snapfail>>
+  /\ UNCHANGED <<pmain, pbak, ino, wlock, conn, snap, res, chk, raced, snapfail, opn, life>>
 
 \* A connection that holds a read transaction (the open cursor) cannot wait for the write
 \* lock (SQLite does not run the busy handler then) and cannot upgrade a stale snapshot:
@@ -167,7 +201,7 @@ Insert(p) ==
      THEN Fail(p, "locked") /\ wlock' = wlock /\ snapfail' = TRUE
      ELSE /\ wlock[conn[p]] = 0                  \* otherwise the busy handler waits
           /\ wlock' = [wlock EXCEPT ![conn[p]] = p] /\ Go(p, "commit") /\ res' = res /\ snapfail' = snapfail
-  /\ UNCHANGED <<pmain, pbak, ino, conn, snap, saw, chk, raced>>
+  /\ UNCHANGED <<pmain, pbak, ino, conn, snap, saw, chk, raced, opn, life>>
 
 \* an upsert that stores what is stored already writes nothing: no new version
 Commit(p) ==
@@ -179,21 +213,53 @@ Commit(p) ==
                                   THEN [on |-> TRUE, c |-> ino'[conn[p]].c, ver |-> ino'[conn[p]].ver]
                                   ELSE NoSnap]
   /\ Go(p, "read2")
-  /\ UNCHANGED <<pmain, pbak, conn, saw, res, chk, raced, snapfail>>
+  /\ UNCHANGED <<pmain, pbak, conn, saw, res, chk, raced, snapfail, opn, life>>
 
 Read2(p) ==
   /\ pc[p] = "read2"
   /\ IF Exp \in View(p) THEN Go(p, "done") /\ res' = [res EXCEPT ![p] = "ok"]
      ELSE Fail(p, IF View(p) \ {"boot"} = {} THEN "missing" ELSE "stale")
-  /\ UNCHANGED <<pmain, pbak, ino, wlock, conn, snap, saw, chk, raced, snapfail>>
+  /\ UNCHANGED <<pmain, pbak, ino, wlock, conn, snap, saw, chk, raced, snapfail, opn, life>>
+
+(* ---- close_db_conn ---- *)
+\* commit (nothing pending) + close of the connection.  SQLite: the last connection that
+\* closes checkpoints the side file into the main file and removes the side files; a close
+\* while other connections are open touches no file.  Enabled at any moment after the page
+\* work (also after a failure during the page work: the context object exists), for the
+\* creating context D at any moment.
+\* a connection is attached to the side files from its first access on (sqlite3.connect alone
+\* only opens the main file)
+OnIno(i) == {q \in PAll : opn[q] /\ conn[q] = i /\ pc[q] # "script"}
+CanClose(p) == opn[p] /\ pc[p] \in {"done", "failed"}
+Close(p) ==
+  /\ CanClose(p)
+  /\ LET i == conn[p]
+         last == OnIno(i) = {p}
+     IN /\ IF last
+           THEN ino' = [ino EXCEPT ![i].ck = Ck(ino[i].c, ino[i].tabs)] /\ pmain' = pmain /\ conn' = conn
+           ELSE IF CloseTidies /\ pmain = i
+           THEN \* the side files are gone from the path: the others keep theirs (open files),
+                \* whoever opens the path from now on sees the main file alone
+                /\ pmain' = FreeIno
+                /\ ino' = [ino EXCEPT ![FreeIno] = Ino(ino[i].ck.c, 0, ino[i].ck.tabs, TRUE, ino[i].ck)]
+                /\ conn' = [q \in PAll |-> IF opn[q] /\ conn[q] = i /\ pc[q] = "script" THEN FreeIno ELSE conn[q]]
+           ELSE ino' = ino /\ pmain' = pmain /\ conn' = conn
+        /\ life' = IF last THEN life
+                   ELSE IF p = D THEN [life EXCEPT !.nlcD = TRUE] ELSE [life EXCEPT !.nlcW = TRUE]
+  /\ opn' = [opn EXCEPT ![p] = FALSE]
+  /\ snap' = [snap EXCEPT ![p] = NoSnap]
+  /\ pc' = [pc EXCEPT ![p] = IF pc[p] = "done" THEN "closed" ELSE "failed"]
+  /\ scn' = scn
+  /\ UNCHANGED <<pbak, wlock, saw, res, chk, raced, snapfail>>
 
 Step(p) == Exists(p) \/ Unlink(p) \/ Rename(p) \/ Connect(p) \/ Script(p) \/ OpenCursor(p)
-           \/ Read1(p) \/ Bootcheck(p) \/ Insert(p) \/ Commit(p) \/ Read2(p)
+           \/ Read1(p) \/ Bootcheck(p) \/ Insert(p) \/ Commit(p) \/ Read2(p) \/ Close(p)
 
-Finished(p) == pc[p] \in {"done", "failed"}
-AllDone == \A p \in Procs : Finished(p)
+Finished(p) == pc[p] \in {"done", "failed", "closed"}     \* page work over
+Ended(p) == Finished(p) /\ ~opn[p]                        \* ... and context closed
+AllDone == \A p \in PAll : Ended(p)
 
-Next == (\E p \in Procs : Step(p)) \/ (AllDone /\ UNCHANGED vars)
+Next == (\E p \in PAll : Step(p)) \/ (AllDone /\ UNCHANGED vars)
 Spec == Init /\ [][Next]_vars
 
 (* ------------------------------------------------------------------ *)
@@ -202,10 +268,10 @@ Spec == Init /\ [][Next]_vars
 \* no database-locked, missing-page or other failure in any worker
 NoFailure == \A p \in Procs : res[p] \in {"-", "ok"}
 \* every worker obtains what a single process obtains
-SerialResults == \A p \in Procs : pc[p] = "done" => res[p] = "ok"
+SerialResults == \A p \in Procs : pc[p] \in {"done", "closed"} => res[p] = "ok"
 \* afterwards the database path holds exactly the pages a single process would have left
 \* (the bootstrap page does not count)
 StoreUnchanged == AllDone => (pmain # 0 /\ ino[pmain].c \ {"boot"} = {Exp})
 \* nobody waits forever: some worker can always move until all are finished
-NoDeadlock == AllDone \/ (\E p \in Procs : ENABLED Step(p))
+NoDeadlock == AllDone \/ (\E p \in PAll : ENABLED Step(p))
 =============================================================================
